@@ -1198,6 +1198,9 @@ func (st *Runtime) evalPipeCallExpression(baseExpr reflect.Value, args CallArgs,
 	if !baseExpr.IsValid() {
 		return reflect.Value{}, errors.New("base of call expression is invalid value")
 	}
+	if args.HasPipeSlot && pipedArg == nil {
+		return reflect.Value{}, errors.New("call uses the pipe slot marker ('_') but no value is piped into it")
+	}
 	if funcType.AssignableTo(baseExpr.Type()) {
 		return baseExpr.Interface().(Func)(Arguments{runtime: st, args: args, pipedVal: pipedArg}), nil
 	}
